@@ -1,7 +1,12 @@
 (* C10 -- Error() composes predictably; annotations are transparent; nil stays nil.
-   Statements only; proofs in Proofs/BuildFacts.v. *)
+   Statements only; proofs in Proofs/BuildFacts.v, ShortText.v, SpecText.v.
+   C10_compositional (SpecText.build_text) is the property at the level of the public
+   API: [spec_text] computes the documented text from the recipe alone ("prefix: cause",
+   fmt-formatted messages including nil arguments and %!(EXTRA ...), join = lines, nil
+   propagation) and every constructor expression built by the modelled library has
+   exactly that Error() text, or is nil exactly when the documentation says so. *)
 From Errv Require Import Base.Str Redact.Markers Model.Err Model.Sem Model.Marks Model.Build
-     Proofs.BuildFacts Proofs.ShortText.
+     Proofs.BuildFacts Proofs.ShortText Proofs.SpecText.
 
 (* annotation-only wrappers (stack, hint, detail, safe details, telemetry, domain,
    issue link, tags, assertion marker, Mark, HTTP / gRPC code) and secondary errors
@@ -104,6 +109,31 @@ Theorem C10_leaf_nonnil : forall env s,
   (forall u d m, fst (build env (RUnimpl u d m) s) <> None).
 Proof. intros. repeat split; intros; [apply new_nonnil|apply stdnew_nonnil|apply unimpl_nonnil]. Qed.
 Print Assumptions C10_leaf_nonnil.
+
+(* every constructor expression (recipe) with plain strings: the Error() text is the
+   compositional specification, nil exactly when the specification says nil *)
+Theorem C10_compositional : forall env r s,
+  ok_recipe r = true ->
+  match fst (build env r s) with
+  | Some e => spec_text r = Some (error_text e) /\ plain_tree e = true
+  | None => spec_text r = None
+  end.
+Proof. exact build_text. Qed.
+Print Assumptions C10_compositional.
+
+(* ... and %v / %s of that error print the same text (with C09) *)
+Theorem C10_compositional_v : forall env r s e,
+  ok_recipe r = true -> fst (build env r s) = Some e ->
+  fmt_plain_short e = error_text e /\ spec_text r = Some (error_text e).
+Proof. exact build_text_short. Qed.
+Print Assumptions C10_compositional_v.
+
+Example C10_spec_example :
+  ok_recipe ex_recipe = true /\
+  spec_text ex_recipe =
+  Some (lit "ctx 42 w: p%!(EXTRA string=extra, int=7): a bno such file or directory" ++ [nl] ++ lit "EOF") /\
+  text_of ex_recipe = spec_text ex_recipe.
+Proof. exact ex_recipe_ok. Qed.
 
 Example C10_example :
   let env := mkbenv [] in
